@@ -30,6 +30,8 @@ CLAIMED = {
                 note="E3 fsencode(fsdecode(b)) = b, E2 dirname commutes with decoding, C14/E1 for synthetic events. That the native path is root joined with the real relative name is C02's bookkeeping.", ref="4/C19"),
     "C10": dict(text="PollingEmitter.queue_events: nothing when stopped; otherwise exactly one event per entry of the eight diff lists, of the right class, at its place in the deleted/modified/created/moved, files-then-directories order (8 loop invariants with segment offsets), the new snapshot becomes the baseline; snapshot OSError => one DirDeletedEvent(root) + stop, baseline kept; on_thread_start baseline. DirectorySnapshot.walk: yields exactly (join(root,name), stat) of the entries whose stat succeeded, in listing order, tolerated listing errors contribute nothing, each yielded directory walked exactly once iff recursive (failures forked at every stat/listdir call); __init__: wf0 and exact path set.",
                 note="The diff is used through C09's contract. stat/listdir arbitrary (may raise at every call); recursion replaced by the function's own contract (finite depth assumed); os.path.join uninterpreted.", ref="4/C10"),
+    "C20": dict(text="PARTIAL. Both binary decoders proved by loop invariant for every record count, name length and padding (Inotify._parse_event_buffer incl. the rstrip of the NUL padding; winapi._parse_event_buffer over NextEntryOffset/FileNameLength); WindowsApiEmitter.queue_events: per-record region contract = the action table; FSEventsEmitter.queue_event/_is_recursive_event: a non-recursive watch queues nothing below the root's direct children.",
+                note="FSEventsEmitter.queue_events (flag-coalescing table) is not applicable - relative to Apple's semantics. E4 (struct/ctypes reads), E8 (record layouts), offsets monotone by assumed induction. Two known findings on Windows (removed directory typed as file; rename halves split across reads) are listed in known_findings.json. 'Replaying reproduces the tree' is not decided.", ref="4/C20"),
 }
 
 NOT_APPLICABLE = {
